@@ -29,7 +29,10 @@ With --run: runs
         text that strconv rejects (1e999) printed as a string literal); anything else that differs and is not
         structurally non-literal is reported as FINDING class=other.  For every case of a FINDING class one
         machine-readable line `FINDING-KEY <class> <hex source>` is printed besides the human-readable ones.
-  Exit status 1 on a failure of (0)-(2); findings do not change the exit status unless --strict (then 2).
+    (4) quoted identifiers (families ident-bt / ident-dq; they are not literals): the token streams of code
+        (`litdump -tokens`) and model (`literal_driver tokens`) are equal and equal to [IDENT <value>] with the value
+        the generator built the spelling from (backslash + multi-byte character, invalid bytes, mixed escapes)
+  Exit status 1 on a failure of (0)-(2), (4); findings do not change the exit status unless --strict (then 2).
 """
 import os
 import re
@@ -137,6 +140,155 @@ def rand_string(r):
             out += r.choice(frags)
     return bytes(out)
 
+
+
+# ---------------------------------------------------------------------------------------------
+# spellings with escapes, built piece by piece together with the value they denote (an independent python
+# transcription of the escape rules: named escapes, unknown escapes keep the backslash and the WHOLE character,
+# \xHH, doubled quote; an invalid byte after a backslash is read as U+FFFD)
+
+NAMED = {0x6E: 10, 0x74: 9, 0x72: 13, 0x30: 0, 0x61: 7, 0x62: 8, 0x66: 12, 0x76: 11, 0x65: 27, 0x5C: 92, 0x27: 39,
+         0x22: 34}
+MB_CHARS = [0x80, 0xE9, 0x3A9, 0x7FF, 0x800, 0x20AC, 0x2019, 0x2212, 0xD7FF, 0xE000, 0xFFFD, 0xFFFF, 0x10000, 0x1F600,
+            0x10FFFF]
+BAD_BYTES = [0x80, 0xBF, 0xC0, 0xC1, 0xC3, 0xE2, 0xF0, 0xF5, 0xFE, 0xFF]
+FFFD = b"\xef\xbf\xbd"
+
+
+def rand_mb(r):
+    k = r.below(3)
+    if k == 0:
+        cp = 0x80 + r.below(0x800 - 0x80)
+    elif k == 1:
+        cp = 0x800 + r.below(0x10000 - 0x800)
+        if 0xD800 <= cp <= 0xDFFF:
+            cp = 0x20AC
+    else:
+        cp = 0x10000 + r.below(0x110000 - 0x10000)
+    return chr(cp).encode("utf-8")
+
+
+def esc_piece(r, quote):
+    """(source bytes, value bytes) of one piece of a quoted text; quote = 0x27 (string), 0x60 (back-quoted identifier)"""
+    k = r.below(9)
+    if k == 0:                                  # raw printable ASCII
+        c = 32 + r.below(95)
+        if c in (quote, 0x5C):
+            c = 0x41
+        return bytes([c]), bytes([c])
+    if k == 1:                                  # named escape
+        c = r.choice(sorted(NAMED))
+        return bytes([0x5C, c]), bytes([NAMED[c]])
+    if k == 2:                                  # unknown ASCII escape
+        c = 1 + r.below(127)
+        if c in NAMED or c == 0x78 or (quote == 0x60 and c == 0x60):
+            c = 0x7A
+        return bytes([0x5C, c]), bytes([0x5C, c])
+    if k == 3 or k == 4:                        # backslash + multi-byte character: the whole character is kept
+        m = rand_mb(r)
+        return b"\\" + m, b"\\" + m
+    if k == 5:                                  # raw multi-byte character
+        m = rand_mb(r)
+        return m, m
+    if k == 6:                                  # \xHH
+        h = r.below(256)
+        return ("\\x%02x" % h).encode(), bytes([h])
+    if k == 7:                                  # doubled quote
+        return bytes([quote, quote]), bytes([quote])
+    b = r.choice(BAD_BYTES)                     # backslash + invalid byte (+ an ASCII letter so that it stays invalid)
+    return bytes([0x5C, b, 0x7A]), b"\\" + FFFD + b"z"
+
+
+def esc_spelling(r, quote, n):
+    src, val = bytearray([quote]), bytearray()
+    for _ in range(n):
+        ps, pv = esc_piece(r, quote)
+        src += ps
+        val += pv
+    src.append(quote)
+    return bytes(src), bytes(val)
+
+
+def dq_spelling(r, n):
+    """double-quoted identifier: a backslash is dropped and the character after it kept whole; "" is a quote"""
+    src, val = bytearray(b'"'), bytearray()
+    for _ in range(n):
+        k = r.below(5)
+        if k == 0:
+            c = 32 + r.below(95)
+            if c in (0x22, 0x5C):
+                c = 0x41
+            src.append(c)
+            val.append(c)
+        elif k == 1:
+            c = 1 + r.below(127)
+            src += bytes([0x5C, c])
+            val.append(c)
+        elif k == 2:
+            m = rand_mb(r)
+            src += b"\\" + m
+            val += m
+        elif k == 3:
+            m = rand_mb(r)
+            src += m
+            val += m
+        else:
+            src += b'""'
+            val += b'"'
+    src += b'"'
+    return bytes(src), bytes(val)
+
+
+def nest_src(kind, parts):
+    o, c = (b"[", b"]") if kind == "A" else (b"(", b")")
+    return o + b", ".join(parts) + c
+
+
+def escape_cases_systematic():
+    cases = []
+    chars = [chr(cp).encode("utf-8") for cp in MB_CHARS]
+    for m in chars:
+        for pre, post in [(b"a", b"b"), (b"", b""), (b"\\n", b"\\\\")]:
+            pv = {b"a": b"a", b"": b"", b"\\n": b"\n"}[pre]
+            qv = {b"b": b"b", b"": b"", b"\\\\": b"\\"}[post]
+            src = b"'" + pre + b"\\" + m + post + b"'"
+            val = pv + b"\\" + m + qv
+            cases.append(("str-uesc", t_str(val), src))
+            cases.append(("str-uesc-nest", t_arr([t_str(val), "n1"]), nest_src("A", [src, b"1"])))
+            cases.append(("str-uesc-nest", t_tup(["m2", t_str(val)]), nest_src("T", [b"-2", src])))
+            cases.append(("str-uesc-nest", t_arr([t_arr([t_str(val)])]), nest_src("A", [nest_src("A", [src])])))
+        cases.append(("str-uesc", t_str(b"\\" + m + b"\\" + m), b"'\\" + m + b"\\" + m + b"'"))
+        cases.append(("ident-bt", ("tok", b"a\\" + m + b"b"), b"`a\\" + m + b"b`"))
+        cases.append(("ident-bt", ("tok", b"\\" + m), b"`\\" + m + b"`"))
+        cases.append(("ident-dq", ("tok", b"a" + m + b"b"), b'"a\\' + m + b'b"'))
+    for b in BAD_BYTES:
+        src = b"'a\\" + bytes([b]) + b"z'"
+        val = b"a\\" + FFFD + b"z"
+        cases.append(("str-uesc-bad", t_str(val), src))
+        cases.append(("str-uesc-bad", t_arr([t_str(val)]), nest_src("A", [src])))
+        cases.append(("str-uesc-bad", t_tup(["n1", t_str(val)]), nest_src("T", [b"1", src])))
+        cases.append(("ident-bt", ("tok", val), b"`a\\" + bytes([b]) + b"z`"))
+        cases.append(("ident-dq", ("tok", b"a" + FFFD + b"z"), b'"a\\' + bytes([b]) + b'z"'))
+    return cases
+
+
+def escape_case_random(r):
+    k = r.below(6)
+    n = 1 + r.below(12)
+    if k <= 2:
+        src, val = esc_spelling(r, 0x27, n)
+        if k == 0:
+            return ("str-mix", t_str(val), src)
+        src2, val2 = esc_spelling(r, 0x27, 1 + r.below(6))
+        if k == 1:
+            return ("str-mix-nest", t_arr([t_str(val), t_str(val2)]), nest_src("A", [src, src2]))
+        return ("str-mix-nest", t_tup([t_str(val2), t_tup([t_str(val), "n0"])]),
+                nest_src("T", [src2, nest_src("T", [src, b"0"])]))
+    if k <= 4:
+        src, val = esc_spelling(r, 0x60, n)
+        return ("ident-bt", ("tok", val), src)
+    src, val = dq_spelling(r, n)
+    return ("ident-dq", ("tok", val), src)
 
 # ---------------------------------------------------------------------------------------------
 # integers
@@ -349,13 +501,16 @@ def gen_cases(seed, count, exhaustive=True):
         cases.append(("str-escape", t_str(b"a" + bytes([h]) + b"z"), ("'a\\x%02xz'" % h).encode()))
     for src in [b"'abc", b"'abc\\", b"'\\x", b"'\\x4", b"'a\\", b"'\xff'", b"'\xc3'", b"'\xed\xa0\x80'", b"'a'''"]:
         cases.append(("raw", "-", src))
+    cases += escape_cases_systematic()
     if exhaustive:
         cases += int_cases_systematic()
         cases += float_cases_systematic()
     for i in range(count):
         r = case_rng(seed, i)
-        fam = r.below(10)
-        if fam < 4:
+        fam = r.below(12)
+        if fam >= 10:
+            cases.append(escape_case_random(r))
+        elif fam < 4:
             v = rand_string(r)
             k = r.below(4)
             if k == 0:
@@ -462,9 +617,13 @@ def main():
     keep = opt("--keep", None)
     max_report = int(opt("--max-report", "10"))
 
-    cases = gen_cases(seed, count, exhaustive)
+    all_cases = gen_cases(seed, count, exhaustive)
+    tok_cases = [c for c in all_cases if isinstance(c[1], tuple)]      # quoted identifiers: token-level comparison
+    cases = [c for c in all_cases if not isinstance(c[1], tuple)]
     if not run:
         out = []
+        for j, (fam, (_, val), src) in enumerate(tok_cases):
+            out.append("t%d\t%s\ttok:4:%s\t%s" % (j, fam, hx(val), hx(src)))
         for i, (fam, tree, ov) in enumerate(cases):
             if isinstance(ov, tuple):
                 ovs = "rawquote:" + hx(ov[1])
@@ -522,6 +681,19 @@ def main():
 
     problems = []
     findings = {}
+    # pass 5: quoted identifiers, token level: code tokens = model tokens = [IDENT <expected value>]
+    if tok_cases:
+        tsrc = [hx(c[2]) for c in tok_cases]
+        tcode = run_tool([litdump, "-tokens"], tsrc)
+        tmodel = run_tool([driver, "tokens"], tsrc)
+        for j, (fam, (_, val), src) in enumerate(tok_cases):
+            exp = "%s\tT\t4:%s" % (hx(src), hx(val))
+            if tcode[j] != tmodel[j]:
+                problems.append("CODE!=MODEL(tokens) case=t%d fam=%s src=%s code=%s model=%s" % (
+                    j, fam, hx(src), tcode[j].split("\t")[-1], tmodel[j].split("\t")[-1]))
+            if tcode[j] != exp:
+                problems.append("CODE!=SPEC(tokens) case=t%d fam=%s src=%s code=%s spec=4:%s" % (
+                    j, fam, hx(src), tcode[j].split("\t")[-1], hx(val)))
     stats = {"cases": len(cases), "with_tree": len(tree_idx), "wf": 0, "model_oof": 0, "code_L": 0, "code_NOTLIT": 0,
              "code_ERR": 0, "code_PANIC": 0}
     fam_count = {}
@@ -572,6 +744,10 @@ def main():
     print("cases=%d with_tree=%d wf=%d model_oof=%d code: L=%d NOTLIT=%d ERR=%d PANIC=%d" % (
         stats["cases"], stats["with_tree"], stats["wf"], stats["model_oof"], stats["code_L"], stats["code_NOTLIT"],
         stats["code_ERR"], stats["code_PANIC"]))
+    tfam = {}
+    for c in tok_cases:
+        tfam[c[0]] = tfam.get(c[0], 0) + 1
+    print("token-level cases=%d %s" % (len(tok_cases), " ".join("%s=%d" % kv for kv in sorted(tfam.items()))))
     print("families: " + " ".join("%s=%d" % kv for kv in sorted(fam_count.items())))
     for k in sorted(findings):
         lst = findings[k]
